@@ -204,9 +204,9 @@ def parseRange (s : String) : BagRange :=
     | none => .S
 
 def bkeyOf? (r : BagRange) : Json → Option BKey
-  | .str "nan" => match r with | .S => some (.str "nan") | _ => some (.num .nan)
-  | .str "inf" => match r with | .S => some (.str "inf") | _ => some (.num .pinf)
-  | .str "-inf" => match r with | .S => some (.str "-inf") | _ => some (.num .ninf)
+  | .str "nan" => match r with | .S => some (.str "nan") | .N => some (.num .nan) | _ => none
+  | .str "inf" => match r with | .S => some (.str "inf") | .N => some (.num .pinf) | _ => none
+  | .str "-inf" => match r with | .S => some (.str "-inf") | .N => some (.num .ninf) | _ => none
   | .num q => match r with | .N => some (.num (.fin q)) | _ => none
   | .str s => match r with | .S => some (.str s) | _ => none
   | .arr l => match r with
